@@ -16,7 +16,7 @@ def directed(judge):
                     for f in ("all", "first", "last"):
                         out.append({"arch": arch, "prog": [dict(q, filter=f), {"a": "Forward", "x": "x1"}] + cal + [{"a": "Forward", "x": "x2"}]})
                 elif judge == "C09":
-                    out.append({"arch": arch, "prog": [q] + cal + [{"a": "Forward", "x": "x1"}, {"a": "Freeze"}, {"a": "Freeze"}, {"a": "DeepCopy"}, {"a": "Forward", "x": "x2"}]})
+                    out.append({"arch": arch, "prog": [q] + cal + [{"a": "Forward", "x": "x1"}, {"a": "ToDevice"}, {"a": "Freeze"}, {"a": "Freeze"}, {"a": "ToDevice"}, {"a": "DeepCopy"}, {"a": "ToDevice"}, {"a": "Forward", "x": "x2"}]})
                 elif judge == "C10":
                     for ser in ("none", "pickle", "weights_only", "safetensors"):
                         for target in ("default", "same", "requantize", "otherq"):
@@ -111,7 +111,7 @@ def calib_scope(c):
 
 
 def body(c, judge):
-    need = {"C08": ["Quantize", "Forward"], "C09": ["Freeze", "DeepCopy"], "C10": ["Save", "Load"], "C11": ["OptStep", "Forward"],
+    need = {"C08": ["Quantize", "Forward"], "C09": ["Freeze", "DeepCopy", "ToDevice"], "C10": ["Save", "Load"], "C11": ["OptStep", "Forward"],
             "C13": ["RaiseIn", "ExitCalib", "ReEnterCalib", "Forward", "LibCall"]}[judge]
     dirs = directed(judge)
     cap = 240 if judge in ("C08", "C10") else 400
@@ -153,6 +153,12 @@ def body(c, judge):
         t, i = L.find_event(tr, lambda e: e["act"] == "DeepCopy")
         t[i]["out_after"][1]["digest"] = "y"
         ctrls.append(("copy-changes-output", t))
+        t, i = L.find_event(tr, lambda e: e["act"] == "ToDevice")
+        t[i]["out_after"][0]["digest"] = "z"
+        ctrls.append(("move-changes-output", t))
+        t, i = L.find_event(tr, lambda e: e["act"] == "ToDevice" and any(m["q"] and m["frozen"] for m in e["mods"]))
+        next(m for m in t[i]["mods"] if m["q"] and m["frozen"])["frozen"] = False
+        ctrls.append(("move-thaws-weights", t))
     elif judge == "C10":
         t, i = L.find_event(tr, lambda e: e["act"] == "Save")
         k = next(iter(t[i]["sd_before"]))
